@@ -170,15 +170,13 @@ func escapeStringLiteral(s string) string {
 			b.WriteString("''")
 		case '\\':
 			b.WriteString(`\\`)
-		case '\x00':
-			// Drop null bytes — invalid in SQL string literals.
 		case '\n':
 			b.WriteString(`\n`)
 		case '\r':
 			b.WriteString(`\r`)
-		case '\x1a': // Ctrl-Z (EOF on Windows)
-			b.WriteString(`\Z`)
 		default:
+			// everything else, NUL and Ctrl-Z included, is written as it is: the
+			// tokenizer has no escape for them and reads them back unchanged
 			b.WriteRune(r)
 		}
 	}
